@@ -843,6 +843,16 @@ func (fv *FV) stdlibCall(st *State, call *ast.CallExpr, fn *types.Func, full str
 	t := info.TypeOf(call)
 	one := func(v Val) ([]Val, bool) { return []Val{v}, true }
 	switch full {
+	case "math.Max", "math.Min":
+		// floats are reals here: the larger / smaller argument (NaN and signed zeros not modelled)
+		op := ">="
+		if full == "math.Min" {
+			op = "<="
+		}
+		a := fv.convertTo(st, args[0], types.Typ[types.Float64])
+		b := fv.convertTo(st, args[1], types.Typ[types.Float64])
+		fv.note("%s: floating point treated as real arithmetic", full)
+		return one(Val{T: fmt.Sprintf("(ite (%s %s %s) %s %s)", op, a.T, b.T, a.T, b.T), S: "Real", Go: t})
 	case "slices.Clone":
 		s := args[0]
 		r := fv.freshSort("clone", s.S)
